@@ -1312,3 +1312,124 @@ Proof.
   assert (raw_put bk [] g = [g]) as -> by (destruct bk; reflexivity).
   split; [reflexivity|]. unfold cinv, wf, hd. simpl. rewrite Hr. repeat split; try lia; try exact Hs.
 Qed.
+
+(* ---------------------------------------------------------------------------------------- *)
+(* Run with its clock: one request per period                                                 *)
+
+Section TICKS.
+  Variable vfy : beacon -> bool.
+  Variable chained : bool.
+  Variable bk : backend.
+  Variable chain : Z -> beacon.
+  Hypothesis chain_round : forall r, b_round (chain r) = r.
+  Hypothesis chain_vfy : forall r, 1 <= r -> vfy (chain r) = true.
+  Hypothesis chain_link : chained = true -> forall r, 1 <= r -> b_prev (chain r) = b_sig (chain (r - 1)).
+  Hypothesis vfy_pos : forall b, vfy b = true -> 1 <= b_round b.
+  Hypothesis vfy_sig : forall b, vfy b = true -> b_sig b = b_sig (chain (b_round b)).
+  Variable factor upTo : Z.
+  Hypothesis factor_nonneg : 0 <= factor.
+  Hypothesis upTo_pos : 0 < upTo.
+
+  Notation ticks := (run_ticks vfy chained bk SkAppend factor upTo).
+  Notation request := (tick_request vfy chained bk SkAppend factor upTo).
+
+  Lemma ticks_reached_stable : forall n now s, cinv chain (tk_st s) -> hd (tk_st s) = upTo ->
+    ticks n now s = s.
+  Proof.
+    induction n as [|n IH]; intros now s Hc Hh; simpl; [reflexivity|].
+    assert (E : request (now + 1) s = s).
+    { unfold tick_request. rewrite (head_of_hd _ (proj1 Hc)), Hh.
+      replace (0 <? upTo) with true by (symmetry; apply Z.ltb_lt; lia).
+      rewrite Z.leb_refl. reflexivity. }
+    rewrite E. apply IH; assumption.
+  Qed.
+
+  Definition due (now : Z) (s : tick_state) : bool :=
+    negb (tk_inflight s) || (tk_last s + factor <? now).
+
+  Definition started (now : Z) (s : tick_state) : tick_state :=
+    let o := sync_loop vfy chained bk SkAppend 0 upTo (tk_st s)
+               (match tk_left s with a :: _ => a | [] => [] end) in
+    mkTk (sy_st o) (match sy_r o with SyncBlocked _ => true | _ => false end) now
+         (tk_ws s ++ sy_ws o) (tk_reqs s ++ sy_reqs o) (tl (tk_left s)).
+
+  Lemma request_behind : forall now s, cinv chain (tk_st s) -> hd (tk_st s) < upTo ->
+    request now s = if due now s then started now s else s.
+  Proof.
+    intros now s Hc Hlt. unfold tick_request, due, started. rewrite (head_of_hd _ (proj1 Hc)).
+    replace (upTo <=? hd (tk_st s)) with false by (symmetry; apply Z.leb_gt; lia).
+    rewrite andb_false_r. reflexivity.
+  Qed.
+
+  (* [w]: ticks a Sync in flight may still have to wait before a request finds it overdue;
+     factor + 1 ticks per attempt that blocks *)
+  Lemma ticks_converge : forall fails pre h post rest,
+    Forall (tolerated vfy chained SkAppend) pre -> honest chain 1 upTo h ->
+    forall (w : nat) s now n,
+    cinv chain (tk_st s) -> hd (tk_st s) < upTo ->
+    tk_left s = fails ++ (pre ++ h :: post) :: rest ->
+    (tk_inflight s = true -> tk_last s + factor - now <= Z.of_nat w) ->
+    (w + 1 + length fails * (Z.to_nat factor + 1) <= n)%nat ->
+    cinv chain (tk_st (ticks n now s)) /\ hd (tk_st (ticks n now s)) = upTo.
+  Proof.
+    induction fails as [|a fails IHf]; intros pre h post rest Hpre Hh;
+      induction w as [|w IHw]; intros s now n Hc Hlt Hleft Hw Hn;
+      (destruct n as [|n]; [simpl in Hn; lia|]); simpl ticks;
+      rewrite (request_behind (now + 1) s Hc Hlt);
+      destruct (due (now + 1) s) eqn:Hdue.
+    - (* good attempt starts *)
+      pose proof (sync_converges vfy chained bk SkAppend chain chain_round chain_vfy chain_link vfy_pos vfy_sig
+                    (fun H => ltac:(discriminate H)) (fun H => ltac:(discriminate H))
+                    upTo pre h post (tk_st s) Hpre Hh Hc Hlt) as [S1 [S2 [S3 _]]].
+      assert (C : cinv chain (tk_st (started (now + 1) s)) /\ hd (tk_st (started (now + 1) s)) = upTo).
+      { unfold started. rewrite Hleft. simpl. auto. }
+      rewrite (ticks_reached_stable n (now + 1) _ (proj1 C) (proj2 C)). exact C.
+    - (* w = 0 and not due: impossible *)
+      exfalso. unfold due in Hdue. apply orb_false_iff in Hdue. destruct Hdue as [Hin Hnd].
+      apply negb_false_iff in Hin. apply Z.ltb_ge in Hnd. specialize (Hw Hin). simpl in Hw. lia.
+    - pose proof (sync_converges vfy chained bk SkAppend chain chain_round chain_vfy chain_link vfy_pos vfy_sig
+                    (fun H => ltac:(discriminate H)) (fun H => ltac:(discriminate H))
+                    upTo pre h post (tk_st s) Hpre Hh Hc Hlt) as [S1 [S2 [S3 _]]].
+      assert (C : cinv chain (tk_st (started (now + 1) s)) /\ hd (tk_st (started (now + 1) s)) = upTo).
+      { unfold started. rewrite Hleft. simpl. auto. }
+      rewrite (ticks_reached_stable n (now + 1) _ (proj1 C) (proj2 C)). exact C.
+    - (* still waiting *)
+      unfold due in Hdue. apply orb_false_iff in Hdue. destruct Hdue as [Hin Hnd].
+      apply negb_false_iff in Hin. apply Z.ltb_ge in Hnd.
+      apply IHw; try assumption.
+      + intros _. specialize (Hw Hin). rewrite Nat2Z.inj_succ in Hw. lia.
+      + simpl in Hn |- *. lia.
+    - (* a failing attempt starts *)
+      pose proof (sync_any vfy chained bk SkAppend chain vfy_pos vfy_sig
+                    (fun H => ltac:(discriminate H)) (fun H => ltac:(discriminate H))
+                    upTo a (tk_st s) (any_orderly_append vfy chained a) Hc Hlt) as [S1 [[S2 [S3 _]]|[S2 [S3 _]]]].
+      + assert (C : cinv chain (tk_st (started (now + 1) s)) /\ hd (tk_st (started (now + 1) s)) = upTo).
+        { unfold started. rewrite Hleft. simpl. auto. }
+        rewrite (ticks_reached_stable n (now + 1) _ (proj1 C) (proj2 C)). exact C.
+      + apply (IHf pre h post rest Hpre Hh (Z.to_nat factor)).
+        * unfold started. rewrite Hleft. simpl. exact S1.
+        * unfold started. rewrite Hleft. simpl. lia.
+        * unfold started. rewrite Hleft. reflexivity.
+        * intros _. unfold started. simpl. rewrite Z2Nat.id by lia. lia.
+        * simpl in Hn. lia.
+    - exfalso. unfold due in Hdue. apply orb_false_iff in Hdue. destruct Hdue as [Hin Hnd].
+      apply negb_false_iff in Hin. apply Z.ltb_ge in Hnd. specialize (Hw Hin). simpl in Hw. lia.
+    - pose proof (sync_any vfy chained bk SkAppend chain vfy_pos vfy_sig
+                    (fun H => ltac:(discriminate H)) (fun H => ltac:(discriminate H))
+                    upTo a (tk_st s) (any_orderly_append vfy chained a) Hc Hlt) as [S1 [[S2 [S3 _]]|[S2 [S3 _]]]].
+      + assert (C : cinv chain (tk_st (started (now + 1) s)) /\ hd (tk_st (started (now + 1) s)) = upTo).
+        { unfold started. rewrite Hleft. simpl. auto. }
+        rewrite (ticks_reached_stable n (now + 1) _ (proj1 C) (proj2 C)). exact C.
+      + apply (IHf pre h post rest Hpre Hh (Z.to_nat factor)).
+        * unfold started. rewrite Hleft. simpl. exact S1.
+        * unfold started. rewrite Hleft. simpl. lia.
+        * unfold started. rewrite Hleft. reflexivity.
+        * intros _. unfold started. simpl. rewrite Z2Nat.id by lia. lia.
+        * simpl in Hn. lia.
+    - unfold due in Hdue. apply orb_false_iff in Hdue. destruct Hdue as [Hin Hnd].
+      apply negb_false_iff in Hin. apply Z.ltb_ge in Hnd.
+      apply IHw; try assumption.
+      + intros _. specialize (Hw Hin). rewrite Nat2Z.inj_succ in Hw. lia.
+      + simpl in Hn |- *. lia.
+  Qed.
+End TICKS.
